@@ -23,5 +23,8 @@ EmitInv == k > 0 => PrintT(ToJson([cid |-> Cases[cid].id, k |-> k, type |-> Engi
       fuzzify |-> [i \in 1..Len(E.inputs) |-> Fuzzify(E.inputs[i], ClipVar(E.inputs[i], Row[i]))],
       highest |-> [i \in 1..Len(E.inputs) |-> HighestMembership(E.inputs[i], ClipVar(E.inputs[i], Row[i]))],
       activated |-> IF Raises(E, St) THEN <<>> ELSE [o \in 1..Len(E.outputs) |-> HighestActivated(St.fuzzy[o], E.outputs[o].aggregation)],
+      discrete |-> IF k = 1 THEN [i \in 1..Len(E.inputs) |-> [j \in 1..Len(E.inputs[i].terms) |->
+                       [mid |-> Discretize(E.inputs[i].terms[j], E.inputs[i].min, E.inputs[i].max, 4, TRUE),
+                        lin |-> Discretize(E.inputs[i].terms[j], E.inputs[i].min, E.inputs[i].max, 4, FALSE)]]] ELSE <<>>,
       raises |-> Raises(E, St)]))
 =============================================================================
